@@ -600,6 +600,57 @@ func run(c *core.Ctx) {
 	e.runSign("deadline-all", []int{3}, map[int]beh{3: {kind: "slow"}}, 1)
 	e.runSign("down-then-ok", []int{5, 4}, map[int]beh{5: down, 4: genReply(r, e.keys, 1)}, 1)
 	e.runSign("all-down", []int{5, 5}, map[int]beh{5: down}, 1)
+	// ---- (ii') a context that is already done when Sign is entered (cancelled, or past its deadline): no endpoint can
+	// answer, so the call must report an error - never an empty success (judged natively: the servers see nothing)
+	for i, mk := range []func() (context.Context, context.CancelFunc){
+		func() (context.Context, context.CancelFunc) {
+			ctx, cancel := context.WithCancel(context.Background())
+			cancel()
+			return ctx, cancel
+		},
+		func() (context.Context, context.CancelFunc) {
+			return context.WithDeadline(context.Background(), time.Now().Add(-time.Second))
+		},
+	} {
+		for _, eps := range [][]int{{1}, {2, 3}, {4, 1, 2}} {
+			signer, err := e.newSigner(eps, 1)
+			if err != nil {
+				c.Native("NewSigner failed on a valid configuration: "+err.Error(), fmt.Sprint(eps))
+				continue
+			}
+			e.behs = map[string]beh{}
+			for _, ep := range eps {
+				e.behs[ips[ep-1]] = genReply(r, e.keys, 1)
+			}
+			// a live call first, then the done context on the same signer
+			for k := 0; k < 2; k++ {
+				ctx, cancel := context.WithTimeout(context.Background(), 30*time.Second)
+				if k == 1 {
+					cancel()
+					ctx, cancel = mk()
+				}
+				var certs []ssh.PublicKey
+				var comms []string
+				var serr error
+				panicked, msg := core.Guard(func() { certs, comms, serr = signer.Sign(ctx, genRequest(r)) })
+				cancel()
+				e.farm.Take()
+				what := []string{"cancelled", "expired"}[i]
+				switch {
+				case panicked:
+					c.Native("panic in Signer.Sign with a "+what+" context: "+msg, fmt.Sprint(eps))
+				case serr == nil && len(certs) == 0:
+					c.Native(fmt.Sprintf("Signer.Sign returned success with no certificate (call %d on this signer, context %s)", k+1, []string{"live", what}[k]),
+						map[string]interface{}{"endpoints": eps, "context": []string{"live", what}[k], "comments": comms})
+				case serr == nil && len(certs) != len(comms):
+					c.Native("Signer.Sign returned certificates and comments of different lengths", fmt.Sprint(eps))
+				default:
+					c.NativeCheck(1)
+				}
+			}
+		}
+	}
+
 	// ---- (iii) retriable codes with the retry interceptor active: Retries = 2 means one retry
 	// after DefaultConfig.Backoff(1) (about 6 s) - kept to very few cases.
 	for i, n := 0, c.N(1, 4); i < n; i++ {
